@@ -51,8 +51,9 @@ pub fn assemble(items: &[Item]) -> Vec<u8> {
                 for i in 0..(*width).min(8) {
                     bytes[*width - 1 - i] = ((off >> (8 * i)) & 0xff) as u8;
                 }
+                // the high byte goes to the most significant byte of the immediate
                 if *width > 4 && *high != 0 {
-                    bytes[*width - 5] = *high;
+                    bytes[0] = *high;
                 }
                 out.push(0x5f + u8::try_from(*width).unwrap());
                 out.extend(bytes);
@@ -122,7 +123,10 @@ fn jump_variants(rng: &mut StdRng, label: usize, conditional: bool) -> (Vec<Item
             v.insert(0, Item::Op(CALLDATASIZE));
         }
     };
-    let (mut v, name): (Vec<Item>, &'static str) = match rng.gen_range(0..11) {
+    let (mut v, name): (Vec<Item>, &'static str) = match rng.gen_range(0..14) {
+        11 => (vec![Item::PushLabel { label, width: 9, high: 1, delta: 0 }], "high-bits-2^64"),
+        12 => (vec![Item::PushLabel { label, width: 17, high: 1, delta: 0 }], "high-bits-2^128"),
+        13 => (vec![Item::PushLabel { label, width: *[6usize, 8, 10, 16, 24, 31].choose(rng).unwrap(), high: 0x40, delta: 0 }], "high-bits-other"),
         0 | 1 | 2 => (vec![lbl(label)], "valid"),
         3 => (
             vec![Item::PushLabel {
@@ -490,8 +494,95 @@ pub fn gas_program(rng: &mut StdRng) -> Program {
     }
 }
 
+/// Blocks joined by legal jumps only, forwards and backwards, conditional and not: loops that share blocks,
+/// blocks entered both by fall-through and by jumps from before and behind, forks out of and into loops.
+/// This is where the per-path visit counts of a block and the limits on forking to it interact.
+pub fn spaghetti(rng: &mut StdRng) -> Program {
+    let n = rng.gen_range(3..7);
+    let mut items = Vec::new();
+    if rng.gen_bool(0.4) {
+        items.extend([lbl(rng.gen_range(0..n)), Item::Op(JUMP)]);
+    }
+    for b in 0..n {
+        items.push(Item::Label(b));
+        if rng.gen_bool(0.5) {
+            items.extend(marker(10 + b as u8));
+        }
+        match rng.gen_range(0..10) {
+            0..=4 => items.extend([Item::Op(CALLDATASIZE), lbl(rng.gen_range(0..n)), Item::Op(JUMPI)]),
+            5..=7 => items.extend([lbl(rng.gen_range(0..n)), Item::Op(JUMP)]),
+            8 if b > 0 => items.push(Item::Op(STOP)),
+            _ => {}
+        }
+    }
+    items.push(Item::Op(STOP));
+    Program {
+        family: "spaghetti".to_string(),
+        code:   assemble(&items),
+    }
+}
+
+/// A loop whose body block T is executed up to the iteration limit, an edge that forks out of the loop, and
+/// a block R elsewhere that enters T again - by a jump or by the fork of a conditional jump - with the
+/// blocks laid out in any order, so that the edge into T points forwards or backwards.  The visit counts
+/// a thread inherits must bound that re-entry however it is made.
+pub fn reentry(rng: &mut StdRng) -> Program {
+    const R: usize = 0;
+    const L1: usize = 1;
+    const T: usize = 2;
+    const X: usize = 3;
+    let jump = |l: usize| vec![lbl(l), Item::Op(JUMP)];
+    let jumpi = |l: usize| vec![Item::Op(CALLDATASIZE), lbl(l), Item::Op(JUMPI)];
+    let mut blocks: Vec<Vec<Item>> = Vec::new();
+    // R: enters T again
+    let mut r = vec![Item::Label(R)];
+    if rng.gen_bool(0.6) {
+        r.extend(jumpi(T));
+        r.push(Item::Op(STOP));
+    } else {
+        r.extend(jump(T));
+    }
+    blocks.push(r);
+    // L1: loop head (now and then the loop head is T itself)
+    let merged = rng.gen_bool(0.3);
+    let head = if merged { T } else { L1 };
+    if !merged {
+        let mut l1 = vec![Item::Label(L1)];
+        if rng.gen_bool(0.5) {
+            l1.extend(marker(11));
+        }
+        l1.extend(jump(T));
+        blocks.push(l1);
+    }
+    // T: loop body with the edge out of the loop before or after the marker
+    let mut t = vec![Item::Label(T)];
+    if rng.gen_bool(0.5) {
+        t.extend(marker(12));
+    }
+    t.extend(jumpi(X));
+    t.extend(jump(head));
+    blocks.push(t);
+    // X: out of the loop, on to R
+    let mut x = vec![Item::Label(X)];
+    x.extend(if rng.gen_bool(0.7) { jump(R) } else { jumpi(R) });
+    x.push(Item::Op(STOP));
+    blocks.push(x);
+    blocks.shuffle(rng);
+    let mut items = jump(head);
+    for b in blocks {
+        items.extend(b);
+    }
+    items.push(Item::Op(STOP));
+    Program {
+        family: "reentry".to_string(),
+        code:   assemble(&items),
+    }
+}
+
 pub fn any(rng: &mut StdRng) -> Program {
-    match rng.gen_range(0..10) {
+    match rng.gen_range(0..13) {
+        12 => reentry(rng),
+        10 | 11 => spaghetti(rng),
         0..=3 => blocks(rng),
         4..=6 => loops(rng),
         7..=8 => errors(rng),
